@@ -49,6 +49,34 @@ def taglib_consistent(self):
     return all(self.__dict__.get(n) == i for i, n in enumerate(names))
 
 
+# ---- Environment: registry keyed by the agents' own ids ---------------------------------------------------------
+def env_registry_consistent(self):
+    agents = getattr(self, 'agents', None)
+    if not isinstance(agents, dict):
+        return _skip('Environment.registry')
+    _bump('Environment.registry')
+    return all(k == a.id for k, a in agents.items())
+
+
+# ---- SpaceWorld: every resident carries a position inside the world (positive-extent axes, extents >= 1) ------------
+def spaceworld_containment(self):
+    agents = getattr(self, 'agents', None)
+    off = getattr(self, '_index_offset', None)
+    if not isinstance(agents, dict) or off is None:
+        return _skip('SpaceWorld.containment')
+    _bump('SpaceWorld.containment')
+    import ECAgent.Environments as envs
+    P = envs.PositionComponent
+    for a in agents.values():
+        c = a.components.get(P)
+        if c is None:
+            return False
+        for v, e in ((c.x, self.width), (c.y, self.height), (c.z, self.depth)):
+            if e >= 1 and not (0 <= v <= e - off):
+                return False
+    return True
+
+
 _attached = set()
 
 
@@ -66,3 +94,11 @@ def attach_system_manager(core):
 
 def attach_taglibrary(tags):
     attach(tags.TagLibrary, taglib_consistent, 'TagLibrary.bijection')
+
+
+def attach_environment(core):
+    attach(core.Environment, env_registry_consistent, 'Environment.registry')
+
+
+def attach_spaceworld(envs):
+    attach(envs.SpaceWorld, spaceworld_containment, 'SpaceWorld.containment')
